@@ -509,6 +509,11 @@ def _run_history(out, case, work):
         seen.add(name)
         inter = _interesting(data)
         offset = min(max(0, inter[oper['at'] % len(inter)] + oper.get('jit', 0)), len(data))
+        if oper.get('same_len') and steps and steps[-1][2] <= len(data):
+            # same scratch path, same number of bytes as the previous step, other content
+            # (what a re-started job leaves in place of the file of the killed one)
+            offset = steps[-1][2]
+            out.labels.append('history:same-length-as-previous')
         steps.append((name, data, offset, [oper.get('ed', 0)]))
     if len(seen) > 1:
         out.labels.append('history:mixed-listings')
@@ -584,7 +589,8 @@ def strategy(tier):
     order = sorted(range(len(T.shipped())), key=lambda i: len(T.shipped()[i][1]))
     lst = st.sampled_from(order[:14] * 3 + order[14:])
     oper = st.fixed_dictionaries({'l': lst, 'at': st.integers(0, 63), 'jit': st.integers(-3, 3),
-                                  'ed': st.integers(0, 9)})
+                                  'ed': st.integers(0, 9),
+                                  'same_len': st.sampled_from([False, False, True])})
     history = st.fixed_dictionaries({'kind': st.just('history'),
                                      'ops': st.lists(oper, min_size=2, max_size=5)})
     # (one_of would merge the repeated branches: the mix is drawn explicitly)
